@@ -120,8 +120,8 @@ add("C08", "control frames and handlers",
     LV, "trusted: engine translation, z3, reference decoder")
 
 add("C09", "nothing after close",
-    [H("vfH_close_seq", ["close-seq-end"]), H("vfH_prepared_seq", ["prepared-seq-end"]), TWIN("vfH_close_seq")],
-    [],
+    [H("vfH_close_seq", ["close-seq-end"]), H("vfH_close_sched", ["close-sched-end"], 300), H("vfH_prepared_seq", ["prepared-seq-end"]), TWIN("vfH_close_seq"), TWIN("vfH_close_sched")],
+    [H("vfH_close_sched", ["close-sched-end"], 900, {"preempt": 3})],
     ["sequential programs: optional complete message, optional open data writer (nothing / one frame flushed and more buffered), close written by 7 paths (WriteControl with symbolic deadline, WriteMessage, NextWriter+Write+Close, prepared close, default close handler, protocol-error close, read-limit close), then 2 of the 7 write APIs and Write/Close of the open writer; both roles; compression negotiated or not"],
     ["interleavings of concurrent writers / WriteControl callers / reader handlers (the schedule quantifier of the property): see the note in MANIFEST", "more than 2 later calls"],
     ASSUME_COMMON + [CLOCK], STUB_COMMON + [STUB_FLATE],
@@ -139,8 +139,8 @@ add("C10", "write failures fail-stop",
     LV, "trusted: engine translation, transport fault model")
 
 add("C19", "PreparedMessage equals WriteMessage",
-    [H("vfH_prepared_seq", ["prepared-seq-end"]), H("vfH_rt_e2e", ["rt-e2e-end"], 400), TWIN("vfH_prepared_seq")],
-    [H("vfH_prepared_seq", ["prepared-seq-end"], 2400, {"tier": 1})],
+    [H("vfH_prepared_seq", ["prepared-seq-end"]), H("vfH_conc_shared", ["conc-shared-end"]), H("vfH_rt_e2e", ["rt-e2e-end"], 400), TWIN("vfH_prepared_seq")],
+    [H("vfH_prepared_seq", ["prepared-seq-end"], 2400, {"tier": 1}), H("vfH_conc_shared", ["conc-shared-end"], 900, {"preempt": 3})],
     ["message types {1,2,8,9,10}, payload lengths {0,1,14,40} (thorough + 125,126,4096,4097,8200), caller's slice overwritten with arbitrary bytes after creation, 2 (thorough 3) sends to 3 connections of differing role / negotiation with EnableWriteCompression / SetCompressionLevel changes between sends"],
     ["concurrent sends (schedule quantifier)", "real deflate output"],
     ASSUME_COMMON, STUB_COMMON + [STUB_FLATE],
@@ -148,13 +148,25 @@ add("C19", "PreparedMessage equals WriteMessage",
     "trusted: engine translation, reference decoder, flate model; concurrency is outside this check")
 
 add("C20", "pooled write buffers",
-    [H("vfH_pool_seq", ["pool-seq-end"], 400), H("vfH_invalid_req", ["invalid-req-end"]), H("vfH_rt_e2e", ["rt-e2e-end"], 400), TWIN("vfH_pool_seq")],
-    [],
+    [H("vfH_pool_seq", ["pool-seq-end"], 400), H("vfH_invalid_req", ["invalid-req-end"]), H("vfH_conc_shared", ["conc-shared-end"]), H("vfH_rt_e2e", ["rt-e2e-end"], 400), TWIN("vfH_pool_seq")],
+    [H("vfH_conc_shared", ["conc-shared-end"], 900, {"preempt": 3})],
     ["2-step write programs (7 programs incl. invalid-free abandoned writers, prepared, WriteControl) with optional transport fault at operations 0..4 of 3 kinds; pool model that hands back nil or the last returned buffer and overwrites every returned buffer with arbitrary bytes; both roles; compression model on/off"],
     ["connections sharing a pool concurrently (schedule quantifier)", "pools whose Get returns foreign values"],
     ASSUME_COMMON, STUB_COMMON + [STUB_FLATE],
     LV + "A use of a buffer after Put would show up as arbitrary bytes on the wire, which the reference decoder rejects.",
     "trusted: engine translation, pool model; writes into a released buffer that are never read back are not observable by this check")
+
+add("C11", "concurrency contract",
+    [H("vfH_conc_frames", ["conc-frames-end"], 400, {"preempt": 1}), H("vfH_conc_close", ["conc-close-end"]), H("vfH_conc_shared", ["conc-shared-end"]),
+     H("vfH_close_sched", ["close-sched-end"], 300), TWIN("vfH_conc_frames", {"preempt": 1}), TWIN("vfH_conc_shared")],
+    [H("vfH_conc_frames", ["conc-frames-end"], 1800, {"preempt": 2, "tier": 1}), H("vfH_close_sched", ["close-sched-end"], 900, {"preempt": 3}), H("vfH_conc_shared", ["conc-shared-end"], 900, {"preempt": 3})],
+    ["goroutines: 1 writer (a 43-byte message in 3 frames, on a server one frame written as two buffers), 1 reader (ping answered by the default handler, then a data message), 1 WriteControl caller (zero deadline / a deadline that may expire while the writer holds the connection / two calls), or Close(); 2 connections sharing one PreparedMessage and one buffer pool",
+     "schedules: scheduling points at every transport operation (which may block arbitrarily long), goroutine start/end and every blocking lock or channel operation; context bound: quick 1 preemption (conc_frames) / 2 (others), thorough 2-3; timers may fire at any scheduling point after they were armed",
+     "data races: vector-clock happens-before detector over every heap cell access of the interpreted code on every explored schedule; a reported race is replayed natively under go test -race"],
+    ["'returns by that deadline' as a real-time bound (time is abstracted: the timeout path is taken whenever the timer wins, writes nothing and does not poison)", "more than 3 library goroutines + main, more preemptions than the bound", "races inside the real compress/flate pools (modelled)"],
+    ASSUME_COMMON[:1] + [CLOCK, "preemption only at scheduling points is sound because the explored executions are checked to be data-race-free"], STUB_COMMON + [STUB_FLATE],
+    LV + "Interleavings are enumerated by a nondeterministic scheduler inside the symbolic executor (context-bounded); data stay symbolic on every interleaving; schedule counterexamples are replayed natively with a token-passing scheduler.",
+    "trusted: engine translation, the scheduler's choice of scheduling points, the happens-before model of channels / sync.Mutex / sync.Once / pools")
 
 NA = {}
 
